@@ -2,7 +2,7 @@
 from .. import machine as M
 
 DRIVERS = ["drv_machine"]
-GENERATED = ["Handlers", "Markers", "MiscHandler"]
+GENERATED = ["Handlers", "Markers", "MiscHandler", "SubmoduleLog"]
 
 
 def lbl(s):
@@ -18,6 +18,8 @@ def expected_file_header(cfg, f):
     if "mode" in f:
         a, b = f["mode"]
         mode = {("100644", "100755"): "mode +x", ("100755", "100644"): "mode -x"}.get((a, b), f"mode {a} {arrow} {b}")
+    if k == "submodule_log":
+        return M.canon_text("file", f["log_header"])        # the `Submodule …` line itself, no label, no mode change
     if k == "plain":
         t = f"{lbl(d['lblModified'])}{old} {arrow} {new}"
     elif k in ("renamed", "renamed_changed", "renamed_binary_changed"):
@@ -74,10 +76,48 @@ def binary_family(ctx, rng):
     return out
 
 
+def late_log_family(ctx, rng):
+    """(cfg, lines, files): every kind of file section - in particular those whose header is written late (mode-only change,
+    empty added file, binary file modified/added/deleted/with a mode change) - directly followed by a submodule log
+    (`git diff --submodule=log`: `Submodule <path> <range>:` + subjects) x {first, after another section} x {the log is the last
+    section, before a file section, before a second log, before a commit block and a section}. The header of the file section
+    must come first, once, with its own text (names, event, mode change); the log's header is the `Submodule …` line itself.
+    (Before the repair of handle_submodule_log_line: header after the log or missing, mode change shown on the log's header.)"""
+    out = []
+    others = [k for k in ALL_KINDS if k != "binary_noindex"]
+    for _ in range(ctx.n(1, 10)):
+        for kind in M.LATE_HEADER_KINDS + [k for k in others if k not in M.LATE_HEADER_KINDS]:
+            late = kind in M.LATE_HEADER_KINDS
+            for before in ((False, True) if late else (rng.random() < 0.5,)):
+                for after in (("end", "diff", "log", "commit") if late else (rng.choice(["end", "diff", "log", "commit"]),)):
+                    cfg = M.gen_cfg(rng, color_only=False)
+                    cfg.d["fileRaw"] = 0; cfg.d["fileOmit"] = 0
+                    prefixes = rng.choice([("a/", "b/")] * 3 + [("i/", "w/"), ("", "")])
+                    files, lines = [], []
+                    def add(k):
+                        f = M.gen_file(rng, kind=k, prefixes=prefixes)
+                        f["first_line"] = len(lines)
+                        lines.extend(f["lines"]); files.append(f)
+                    if before:
+                        add(rng.choice(others))
+                    add(kind)
+                    add("submodule_log")
+                    if after == "commit":
+                        lines.extend(M.gen_commit(rng))
+                    if after == "log":
+                        add("submodule_log")
+                    elif after != "end":
+                        add(rng.choice(others))
+                    out.append((cfg, lines, files))
+    return out
+
+
 def run(ctx, rep):
-    rep.rule = ("git diffs over all 19 file-section kinds (incl. renamed/copied binary file with changes, deleted binary file, binary file "
-                "with a mode change; every kind with a `Binary files` line also first/after a section and last/before a section/before a "
-                "commit block/twice) x path shapes (spaces, non-ASCII, mnemonic prefixes, /dev/null sides) x "
+    rep.rule = ("git diffs over all 20 section kinds (incl. renamed/copied binary file with changes, deleted binary file, binary file "
+                "with a mode change, submodule log of diff.submodule=log; every kind with a `Binary files` line also first/after a "
+                "section and last/before a section/before a commit block/twice; every kind - all six whose header is written late in "
+                "every position - directly before a submodule log that is last/before a section/before a second log/before a commit "
+                "block) x path shapes (spaces, non-ASCII, mnemonic prefixes, /dev/null sides) x "
                 "hunks present/absent x neighbours, plus plain diff -u; label/arrow/style settings random; non-trivial = >= 2 "
                 "sections or a rename/copy/mode/binary event; distinct by (config, input)")
     rng = ctx.rng
@@ -109,6 +149,9 @@ def run(ctx, rep):
     # written late - at the next `diff` / `commit` line or at the end of input - or, after rename / copy lines, at once)
     for cfg, lines, files in binary_family(ctx, rng):
         cases.append((cfg, [l.encode() for l in lines])); meta.append((cfg, lines, files, "git"))
+    # every section shape directly before a submodule log (a late header must be written before the log's header)
+    for cfg, lines, files in late_log_family(ctx, rng):
+        cases.append((cfg, [l.encode() for l in lines])); meta.append((cfg, lines, files, "git"))
     res = M.observe(ctx, cases)
     for (cfg, lines, files, src), (impl, model) in zip(meta, res):
         case = dict(args=cfg.args(), model_cfg=cfg.d, input="\n".join(lines), source=src)
@@ -116,6 +159,10 @@ def run(ctx, rep):
                  sample=dict(kinds=[f["kind"] for f in files], paths=[(f["old"], f["new"]) for f in files][:3]))
         for f in files:
             rep.count("kind:" + f["kind"])
+        for fa, fb in zip(files, files[1:]):
+            if fb["kind"] == "submodule_log" and fb.get("first_line") == fa.get("first_line", -1) + len(fa["lines"]):
+                rep.count("before-submodule-log:" + ("late:" if fa["kind"] in M.LATE_HEADER_KINDS else "") + fa["kind"] +
+                          (":log-is-last" if fb is files[-1] else ""))
         if impl.panic:
             rep.violation("panic:" + impl.msg[:60], impl.msg[:200], case); continue
         if not impl.ok:
@@ -142,6 +189,11 @@ def run(ctx, rep):
             if j >= 1 and len(got) > len(want) and (j >= len(want) or (j + 1 < len(got) and got[j + 1] == want[j])):
                 # as expected up to section j-1, then one more header, then the header section j should have (or the end)
                 sig = "file-header:second-header:" + headed[j - 1]["kind"]
+            # a section whose header is written late, directly followed by a submodule log: the pending header must be written
+            # before the log's header (repaired defect: it came after the log, or never, its mode change on the log's header)
+            if any(fa["kind"] in M.LATE_HEADER_KINDS and fb["kind"] == "submodule_log" and i <= j <= i + 2
+                   for i, (fa, fb) in enumerate(zip(headed, headed[1:]))):
+                sig = "file-header:pending-before-submodule-log"
             # plain diff: an added line `++ x` / a removed line `-- x` look like a header line
             if src == "plain" and len(got) > len(want) and any(l.startswith("+++ ") and not l.startswith("+++ y/") for l in lines):
                 sig = "plain-diff-plusplus-body-taken-as-header"
